@@ -216,6 +216,11 @@ def oracles(case, impl, model):
                     else:
                         if parse_fields(res) != parse_fields(sp):
                             out.append(("C02", "decoded fields differ from the RFC's on `%s`" % cmd[:200]))
+                            fi, fs = parse_fields(res), parse_fields(sp)
+                            if len(fi) == len(fs) and any(a[0] != b[0] for a, b in zip(fi, fs)):
+                                k = next(j for j, (a, b) in enumerate(zip(fi, fs)) if a[0] != b[0])
+                                out.append(("C15", "field %d of `%s` decoded into class %s where the representation prescribes %s "
+                                                   "(never-indexed class exactly for never-indexed literals)" % (k, cmd[:160], fi[k][0], fs[k][0])))
                         sst = parse_state(sp)
                         if st is not None and sst is not None and (st["ent"] != sst["ent"] or st["max"] != sst["max"]):
                             out.append(("C02", "table after the block differs from the RFC's on `%s`" % cmd[:200]))
